@@ -355,6 +355,7 @@ func c18(c *Ctx) {
 	c18TxDatabase(c)
 	c18EffectiveUpdates(c)
 	c18TokenExpiry(c)
+	c18AccountOwnership(c)
 	c18PerMessageGate(c)
 	// ---- C18.4 SQL statements: readOnly() agrees with effects ------------------------------------------------------
 	c18SQLReadOnly(c)
@@ -1062,4 +1063,38 @@ func queryOfReadOnlyStmt(cc *ssa.CallCommon) bool {
 		return all && n > 0
 	}
 	return false
+}
+
+// c18AccountOwnership: an account's creator (User.CreatedBy) is, besides the system administrator, the only one
+// entitled to change its password or to (de)activate it. The creator of an existing account is therefore rewritten
+// only past the check that grants exactly that right (caller is sysadmin, or caller == CreatedBy): an operation
+// authorised by a permission on ONE database (grant/revoke there) must not hand the whole account, with its
+// permissions on other databases, to the caller.
+func c18AccountOwnership(c *Ctx) {
+	r := "C18.10/account-ownership-not-transferred"
+	n := 0
+	isSys := whenCond(true, atomContains("IsSysAdmin"))
+	isCreator := whenCond(true, func(a string) bool { return strings.Contains(a, "CreatedBy") && strings.Contains(a, "Username") && strings.Contains(a, "==") })
+	for _, f := range c.allFns {
+		if !fnInPkgs(f, []string{"pkg/server"}) || len(f.Blocks) == 0 {
+			continue
+		}
+		for i, in := range sites(f, storeTo("User.CreatedBy")) {
+			if isFreshAlloc(storeBase(in)) {
+				continue // a new account
+			}
+			n++
+			in := in
+			q := &pathQ{fn: f, fromEntry: true, to: func(x ssa.Instruction) bool { return x == in }, barrier: anyEdge(isSys, isCreator)}
+			construct := fmt.Sprintf("%s:CreatedBy#%d", fnName(f), i)
+			if w := q.bypass(); w != nil {
+				c.fail(r, construct, c.pos(in.Pos()), "the creator of an existing account is rewritten on a path that never established that the caller is the system administrator or the current creator: the caller then passes the creator check of ChangePassword / SetActiveUser for an account holding permissions on other databases")
+			} else {
+				c.ok(r, construct, c.pos(in.Pos()), "reached only past IsSysAdmin or caller == CreatedBy")
+			}
+		}
+	}
+	if n < 2 {
+		c.undecided(r, "floor", fmt.Sprintf("%d rewrites of the creator of an existing account found (ChangePassword, SetActiveUser confirmed by hand)", n))
+	}
 }
